@@ -22,7 +22,7 @@ TEXT = {
         note="Bounded 'eventually' (watchdog + logical witness); schedules sampled.", ref="4/C02"),
     "C03": dict(
         technique="offline rule checker over a sequence-numbered event log; directed pauses at RKCOMMON_VERIF hook points; TSan + ASan",
-        text="Exploration: directed schedules (pause thread X at point P until thread Y passes Q) over hook-point pairs x call scripts x launch methods, PCT-style random delays, undelayed stress, and raw stress without any hook installed (2000 start/stop cycles per script, incl. back-to-back stop/start); rules R1-R3 checked over the sequence-numbered event log; lost wake-ups decided by a logical witness (no body for 5 s after start() returned, yet a body within ms after a fresh stop()+start()).",
+        text="Exploration: directed schedules (pause thread X at point P until thread Y passes Q) over hook-point pairs x call scripts x launch methods, PCT-style random delays, undelayed stress, and raw stress without any hook installed (2000 start/stop cycles per script, incl. back-to-back stop/start), plus loops with the default launch method over tasking systems of 0..6 threads; rules R1-R3 checked over the sequence-numbered event log; lost wake-ups decided by a logical witness (no body for 5 s after start() returned, yet a body within ms after a fresh stop()+start()).",
         note="Interleavings between two hook points are not distinguished; liveness is bounded.", ref="4/C03"),
     "C04": dict(
         technique="differential runtime oracle (per-component scalar reference) under ASan/UBSan",
@@ -30,11 +30,11 @@ TEXT = {
         note="Reference uses the identical scalar expression; float reductions within k*eps bounds.", ref="4/C04"),
     "C05": dict(
         technique="lattice point-membership oracle in wider precision under ASan/UBSan",
-        text="Exploration: boxes/ranges drawn from a half-integer lattice, every lattice point tested against set semantics for contains/extend/intersection/disjoint/clamp; xfmBounds and intersectRayBox against long-double references.",
+        text="Exploration: boxes/ranges drawn from a half-integer lattice, every lattice point tested against set semantics for contains/extend/intersection/disjoint/clamp; integer boxes with bounds at the ends of int; xfmBounds and intersectRayBox against long-double references.",
         note="Float cases use lattice coordinates exactly representable in float.", ref="4/C05"),
     "C06": dict(
         technique="long-double reference algebra + cross-construction agreement, branch census, under ASan/UBSan",
-        text="Exploration: generated matrices with bounded condition number, axes, angles, quaternions; every identity in the property is evaluated with a condition-derived tolerance; all four quaternion-from-matrix branches must be observed.",
+        text="Exploration: generated matrices with bounded condition number, axes, angles, quaternions; every identity in the property is evaluated with a condition-derived tolerance; all four quaternion-from-matrix branches must be observed; lookat on scenes scaled as a whole.",
         note="Tolerances c*kappa*eps; condition <= 64.", ref="4/C06"),
     "C07": dict(
         technique="exhaustive 2^32 float sweep against double reference (SIMD and NO_SIMD builds) + grids under UBSan",
@@ -46,7 +46,7 @@ TEXT = {
         note="Schedules sampled.", ref="4/C08"),
     "C09": dict(
         technique="value model in lock-step + lifetime registry + alignment check, fork-per-case under ASan/UBSan",
-        text="Exploration: random histories over Optional<T>/Any with instrumented payloads (a quarter of the operations on the lifetime-tracked payload run with a failpoint that makes a construction/assignment throw; one payload stores its own address); engaged state, values, independence of copies, exactly-once destruction, no payload operation on dead storage, alignment, crash-free comparisons/printing.",
+        text="Exploration: random histories over Optional<T>/Any with instrumented payloads (a quarter of the operations on the lifetime-tracked payload run with a failpoint that makes a construction/assignment throw; one payload stores its own address; value_or across payload/default types); engaged state, values, independence of copies, exactly-once destruction, no payload operation on dead storage, alignment, crash-free comparisons/printing.",
         note="Results of comparisons with an empty side are not asserted (only totality).", ref="4/C09"),
     "C10": dict(
         technique="reference ordered-map model in lock-step under ASan/UBSan",
@@ -58,11 +58,11 @@ TEXT = {
         note="Unaligned DataView strides are not generated (caller's UB).", ref="4/C11"),
     "C12": dict(
         technique="permutation/order/monotonicity checkers over recorded hand-off logs + ThreadSanitizer",
-        text="Exploration: 1..8 producers with unique-id payloads against a consuming thread; offline checks for loss/duplication/order/torn state, the consumer's size()/empty() against the consume() that follows; a burst protocol makes the consumer obtain the last value at every producer pause (instrumented payload with failing assignments, and std::string values incl. empty/repeated ones); TSan decides the data-race clause.",
+        text="Exploration: 1..8 producers with unique-id payloads against a consuming thread; offline checks for loss/duplication/order/torn state, the consumer's size()/empty() against the consume() that follows; a burst protocol makes the consumer obtain the last value at every producer pause (instrumented payload with failing assignments, std::string values incl. empty/repeated ones, consume() under an allocation failure of the consumer); TSan decides the data-race clause.",
         note="Schedules sampled; TSan exact because only std primitives are used.", ref="4/C12"),
     "C13": dict(
         technique="runtime monitor of simultaneous body count and reported thread count, 4 backends, fresh process per init sequence",
-        text="Exploration: init sequences x n in 1..32 and n<=0 on four backends (plus the internal and serial backends with the application compiled with -fopenmp), fresh process each; max simultaneous parallel_for bodies <= n (transient vs persistent excess told apart by a re-measurement), numTaskingThreads()==n, with a saturation coverage floor; exiting enkiTS workers are held at a hook point so that teardown races show under ASan.",
+        text="Exploration: init sequences x n in 1..32 and n<=0 on four backends (plus the internal and serial backends with the application compiled with -fopenmp; every third process uses the tasking system before initialising it), fresh process each; max simultaneous parallel_for bodies <= n (transient vs persistent excess told apart by a re-measurement), numTaskingThreads()==n, with a saturation coverage floor; exiting enkiTS workers are held at a hook point so that teardown races show under ASan.",
         note="Simultaneous count only; distinct thread ids are evidence not verdict.", ref="4/C13"),
     "C14": dict(
         technique="alignment/pattern/interval-disjointness monitor + ASan/LSan, both allocator back ends",
@@ -74,11 +74,11 @@ TEXT = {
         note="Checked for the declared AbstractArray<T> operator.", ref="4/C15"),
     "C16": dict(
         technique="libFuzzer + ASan/UBSan with exception-type oracle; generated-tree round trip; truncation/substitution sweep",
-        text="Exploration: coverage-guided fuzzing of readXML (libFuzzer+ASan+UBSan) with totality/exception-type/memory-safety oracle, deterministic truncation, substitution, deletion and insertion sweeps of generated documents, faithful round trip of generated trees (comments from a scanner-relevant alphabet, in runs, in every gap), and an open-descriptor monitor around the calls.",
+        text="Exploration: coverage-guided fuzzing of readXML (libFuzzer+ASan+UBSan) with totality/exception-type/memory-safety oracle, deterministic truncation, substitution, deletion and insertion sweeps of generated documents, faithful round trip of generated trees (comments from a scanner-relevant alphabet, in runs, in every gap; one document in a hundred has up to ~5000 nodes), and an open-descriptor monitor around the calls.",
         note="max_len bounds nesting depth.", ref="4/C16"),
     "C17": dict(
         technique="128-bit index reference, exhaustive small extents, unique-id cells, under ASan/UBSan",
-        text="Exhaustive over all extents up to a small bound for bijection/iteration; random huge extents at corners; array adaptors checked on arrays whose cells hold their own flattened id (MultiSlice also over thick and non-clamping slices; value ranges of converting accessors over regions).",
+        text="Exhaustive over all extents up to a small bound for bijection/iteration; random huge extents at corners; array adaptors checked on arrays whose cells hold their own flattened id (MultiSlice also over thick and non-clamping slices; value ranges of converting accessors over regions, ranges asked again after writes, adaptors re-checked after the caller changed its slice vector).",
         note="Exhaustive only up to the stated extent bound.", ref="4/C17"),
     "C18": dict(
         technique="reference implementations + recomposition laws over exhaustive small-alphabet inputs under ASan/UBSan",
@@ -86,11 +86,11 @@ TEXT = {
         note="POSIX separator only.", ref="4/C18"),
     "C19": dict(
         technique="epoch model in lock-step + stamp uniqueness/monotonicity monitor + ASan + TSan",
-        text="Exploration: random histories over observables/observers incl. both destruction orders against an epoch model under ASan; concurrent time-stamp creation checked for uniqueness and per-thread monotonicity under TSan and plain.",
+        text="Exploration: random histories over observables/observers incl. both destruction orders against an epoch model under ASan; objects with static storage, with the application linked before the library (plain-appfirst); concurrent time-stamp creation checked for uniqueness and per-thread monotonicity under TSan and plain.",
         note="Schedules sampled.", ref="4/C19"),
     "C20": dict(
         technique="independent image decoder over exact-size ASan buffers; offline JSON trace checker",
-        text="Exploration: all widths/heights up to a bound plus wide/tall images (powers of two +-1 up to 65537) x six writer variants decoded by an independent reader, also with four writers at work at the same time; generated nested event scripts from 1..8 threads - alive together or run one after the other and exited (thread ids reused) - checked offline against the model log.",
+        text="Exploration: all widths/heights up to a bound plus wide/tall images (powers of two +-1 up to 65537) x six writer variants decoded by an independent reader, also with four writers at work at the same time and one ~12.6 MB image per writer; generated nested event scripts from 1..8 threads - alive together or run one after the other and exited (thread ids reused), second saves, up to 140000 distinct names on one thread - checked offline against the model log.",
         note="Decoder written from the Netpbm/PFM format descriptions.", ref="4/C20"),
 }
 
